@@ -88,6 +88,9 @@ def run(ctx) -> None:
     quick = ctx.quick
     rng = random.Random(ctx.seed)
     world = C.World()
+    if ctx.replay:
+        np.seterr(all="ignore")
+        return C.replay_case(ctx, world, ctx.replay, sampling_is_foreign=True)
     np.seterr(all="ignore")  # 0/0 and x/0 in sampled values are part of the explored domain
     ctx.rule = ("every history of <= MaxDepth public operations enumerated by TLC (Containers.tla, PrintStep) for the listed "
                 "scenarios is executed on real objects; evaluation = one executed operation with result and all older "
@@ -121,6 +124,8 @@ def run(ctx) -> None:
         if not quick:
             jobs["emit d3"] = pool.submit(C.run_model, deep, C17_OPS, 3, invariants=["TypeOK", "AcceptIffValid"], emit=True,
                                           selset="small", workers=6)
+            jobs["emit d2 all"] = pool.submit(C.run_model, base[:18], C17_OPS, 2, invariants=["TypeOK", "AcceptIffValid"], emit=True,
+                                              selset="full", workers=6)
             jobs["laws d3"] = pool.submit(C.run_model, deep[:3], C17_OPS, 3, invariants=C.LAWS_C17, selset="small", workers=6)
         results = {k: f.result() for k, f in jobs.items()}
 
@@ -208,7 +213,9 @@ def run(ctx) -> None:
             continue  # a step the real code already fails (known defect): not usable for the demonstration
         tried += 1
         caught += any(kind == "violation" for kind, _ in bad_log)
-    ctx.require(tried >= 10 and caught == tried, f"binding demonstration failed: {caught}/{tried} corrupted expectations noticed")
+    # (a library so broken that hardly any step is clean is reported through its violations, not as a machinery failure)
+    ctx.require((tried >= 10 or bool(ctx._violations)) and caught == tried,
+                f"binding demonstration failed: {caught}/{tried} corrupted expectations noticed")
     ctx.extra["binding_demo"] = dict(corrupted_expectations=tried, noticed=caught)
     ctx.exhaustive = True
 
